@@ -287,6 +287,13 @@ Theorem C19_rgb_relative_arguments : forall s i dz, Inv_rgb s ->
 Proof. exact RelArgsP.relative_arguments_final. Qed.
 Print Assumptions C19_rgb_relative_arguments.
 
+(* Led: set_brightness with the brightness the Led already has - as an int, as True/False when it
+   is 1/0, or as a float - is accepted and changes nothing *)
+Theorem C19_led_own_brightness : forall s i sp, Inv_led s ->
+  Led.step s (Led.SetBrightness (resolve_led s (CCur i 0 sp))) = (s, [Lvl [Led.bright s]], Ok RNone).
+Proof. exact RelArgsP.led_own_brightness. Qed.
+Print Assumptions C19_led_own_brightness.
+
 (* non-vacuity, and the seeded scenario inside the model: lit in (10,200,30), blink in (10,200,30) *)
 Example C19_rgb_blink_own_colour_nonvacuous :
   let s := mkRgb (PI 9, PI 10, PI 11) (10, 200, 30)%Z true in
